@@ -3,6 +3,7 @@
 # applies seeded/<dir>/patch.diff to /repo (uncommitted), runs the quick checks, prints the violation signatures, reverts.
 D=$1; shift
 cd /verif
+rm -rf /tmp/_ev_try; cp -r evidence /tmp/_ev_try        # the evidence of a run on a changed tree is discarded afterwards
 git -C /repo apply /verif/seeded/$D/patch.diff || { echo "patch does not apply"; exit 2; }
 for P in "$@"; do
   rm -f replays/${P}_*
@@ -15,3 +16,4 @@ PY
   rm -f replays/${P}_*
 done
 git -C /repo checkout -- .
+cp /tmp/_ev_try/*.json evidence/; rm -rf /tmp/_ev_try
